@@ -752,6 +752,35 @@ theorem safe_gridFill (inp : Input) (h : wf .gridFill inp = true) : Safe inp (pr
   simp only [shapeOk, Bool.and_eq_true] at hs
   exact safe_fillAll (not_lvcr_of_in hs.1.2 rvio_io) (lt_of_catIn hs.1.2) (Nat.le_refl _)
 
+/-! ## extension round 3: parse / options results -/
+
+theorem safe_results (inp : Input) (o : Op)
+    (ho : o = .parseOpt ∨ o = .parseConvert ∨ o = .optsArgument ∨ o = .optsOptional ∨ o = .parseAlt ∨ o = .optsSum)
+    (h : wf o inp = true) : Safe inp (prog o inp) := by
+  rcases ho with rfl | rfl | rfl | rfl | rfl | rfl
+  · exact safe_ite (fun _ => safe_fresh_res inp 1000 (by omega)) (fun _ => safe_nil inp)
+  · exact safe_ite (fun _ => safe_fresh_res inp 1000 (by omega)) (fun _ => safe_nil inp)
+  · exact safe_ite (fun _ => safe_fresh_res inp 1000 (by omega)) (fun _ => safe_nil inp)
+  · exact safe_ite (fun _ => safe_fresh_res inp 1000 (by omega)) (fun _ => safe_nil inp)
+  · exact safe_ite (fun _ => safe_fresh_res inp 1000 (by omega)) (fun _ => safe_nil inp)
+  · exact safe_ite
+      (fun _ => safe_pair ((ok_fresh inp _ .res).2 ⟨by omega, destOk_res inp⟩) ((ok_fresh inp _ .res).2 ⟨by omega, destOk_res inp⟩)
+        (fun b j hk _ => hk))
+      (fun _ => safe_pair ((ok_fresh inp _ .drop).2 ⟨by omega, destOk_drop inp⟩) ((ok_fresh inp _ .res).2 ⟨by omega, destOk_res inp⟩)
+        (fun b j hk _ => hk))
+
+theorem safe_results2 (inp : Input) (o : Op) (ho : o = .parseAsStruct ∨ o = .optsProduct) (h : wf o inp = true) :
+    Safe inp (prog o inp) := by
+  rcases ho with rfl | rfl <;>
+  · refine safe_ite (fun _ => ?_) (fun _ => safe_ite (fun _ => ?_) (fun _ => safe_nil inp))
+    · exact safe_cons ((ok_fresh inp _ .res).2 ⟨by omega, destOk_res inp⟩) (safe_fresh_res inp 1001 (by omega))
+        (fun y _ b j hk _ => hk)
+    · exact safe_singleton ((ok_fresh inp _ .drop).2 ⟨by omega, destOk_drop inp⟩)
+
+theorem safe_resultsN (inp : Input) (o : Op) (ho : o = .parseSeparator ∨ o = .parseList ∨ o = .parseRepPlus ∨ o = .optsMany)
+    (h : wf o inp = true) : Safe inp (prog o inp) := by
+  rcases ho with rfl | rfl | rfl | rfl <;> exact safe_freshRange _ _ (destOk_res inp)
+
 /-- **every registered operation's program is safe**, for arguments of every size -/
 theorem prog_safe (o : Op) (inp : Input) (h : wf o inp = true) : Safe inp (prog o inp) := by
   cases o with
@@ -893,5 +922,17 @@ theorem prog_safe (o : Op) (inp : Input) (h : wf o inp = true) : Safe inp (prog 
   | gridCtorGrid => exact safe_gridCtorGrid inp h
   | gridAssign => exact safe_gridAssign inp h
   | gridFill => exact safe_gridFill inp h
+  | parseOpt => exact safe_results inp _ (by simp) h
+  | parseConvert => exact safe_results inp _ (by simp) h
+  | optsArgument => exact safe_results inp _ (by simp) h
+  | optsOptional => exact safe_results inp _ (by simp) h
+  | parseAlt => exact safe_results inp _ (by simp) h
+  | optsSum => exact safe_results inp _ (by simp) h
+  | parseAsStruct => exact safe_results2 inp _ (by simp) h
+  | optsProduct => exact safe_results2 inp _ (by simp) h
+  | parseSeparator => exact safe_resultsN inp _ (by simp) h
+  | parseList => exact safe_resultsN inp _ (by simp) h
+  | parseRepPlus => exact safe_resultsN inp _ (by simp) h
+  | optsMany => exact safe_resultsN inp _ (by simp) h
 
 end Fcppt.C05
